@@ -557,10 +557,13 @@ impl<'a> Gen<'a> {
             } else {
                 // glob include over g new files, visited in PathBuf order
                 let g = 1 + self.r.below(3) as usize;
-                let m = self.r.below(remaining.min(5) as u64 + 1) as usize;
+                let mut m = self.r.below(remaining.min(5) as u64 + 1) as usize;
+                if m < g && remaining >= g && self.r.chance(2, 3) {
+                    m = g;
+                }
                 let base = self.choose_dir(&dir);
                 let base = self.open_dir(base);
-                let (pattern, mut targets): (VPath, Vec<VPath>) = match self.r.below(5) {
+                let (pattern, mut targets): (VPath, Vec<VPath>) = match self.r.below(7) {
                     0 | 1 => {
                         // every *.ledger of a fresh directory
                         self.tags.insert("glob:*.ledger".into());
@@ -639,6 +642,14 @@ impl<'a> Gen<'a> {
                         let u = *self.r.pick(&["s", "t", "é"][..]);
                         let mut sufs = ["", "-1", ".d", " x", "+", "a", "0"].to_vec();
                         self.r.shuffle(&mut sufs);
+                        if g >= 2 && self.r.chance(3, 4) {
+                            // a name and the same name followed by a character below '/': the
+                            // component order (s < s-1) is the reverse of the string order (s-1/ < s/)
+                            let low = *self.r.pick(&["-1", ".d", " x", "+"][..]);
+                            sufs.retain(|x| *x != "" && *x != low);
+                            sufs.insert(0, "");
+                            sufs.insert(1, low);
+                        }
                         let ts: Vec<VPath> = sufs[..g]
                             .iter()
                             .map(|s| {
@@ -682,6 +693,10 @@ impl<'a> Gen<'a> {
                 content.push(AEntry::Inc(w));
                 // split the next m entries into g consecutive chunks (possibly empty)
                 let mut cuts: Vec<usize> = (0..g - 1).map(|_| self.r.below(m as u64 + 1) as usize).collect();
+                if m >= g && self.r.chance(2, 3) {
+                    // every file gets at least one entry, so the visiting order shows
+                    cuts = (1..g).map(|k| k * m / g).collect();
+                }
                 cuts.sort();
                 let mut lo = 0;
                 for (k, t) in targets.into_iter().enumerate() {
